@@ -42,6 +42,7 @@ def worker_init(x64: bool, repo: str) -> None:
     import warnings
 
     warnings.filterwarnings('ignore', message='JAX is not using 64-bit')
+    warnings.filterwarnings('ignore', message='Explicitly requested dtype')
     import jax  # noqa: F401
 
     jax.config.update('jax_enable_x64', bool(x64))
